@@ -44,7 +44,7 @@ def plan(tier):
     return {"cases": 36, "timeout": 400, "wall_budget": 65, "recheck": 2, "nproc": 6}
 
 def gen_case(rng, tier, index):
-    feats = {"vars", "depenv", "diamond", "checkoutscript"} | set(rng.sample(["import", "provideVars", "tools", "classes", "forward", "provideDeps"], rng.randint(0, 4)))
+    feats = {"vars", "depenv", "diamond", "checkoutscript"} | set(rng.sample(["import", "provideVars", "tools", "classes", "forward", "provideDeps", "passthrough", "passthrough"], rng.randint(0, 4)))
     model = projgen.gen_valid_project(rng, nmin=4, nmax=7, features=feats)
     ops = [["dev", 1, rng.getrandbits(32)]]
     # values from a tiny pool: variants disappear and *re-appear* while others exist
@@ -87,6 +87,21 @@ def directed_cases(tier):
                ["edit", {"kind": "dep_add", "recipe": "root", "dep": "wrap", "pos": 1}], [mode, 2, 3], [mode, 1, 4],
                ["clean", "develop" if mode == "dev" else "release", False, False], [mode, 1, 5]]
         out.append({"model": model, "ops": ops, "directed": "variant re-appears while its old number is taken"})
+    # one package (same recipe, same Variant-Id) above two different variants of a dependency that it
+    # only hands on: clean has to keep the workspaces below *both* occurrences
+    lib = leaf(); lib["buildVars"] = ["VA"]; lib["packageVars"] = ["VA"]
+    mid = leaf(); mid["depends"] = [{"name": "lib", "use": []}]; mid["provideDeps"] = ["lib"]
+    p1 = leaf(); p1["depends"] = [{"name": "mid", "use": ["result", "deps"], "environment": {"VA": "a"}}]
+    p2 = leaf(); p2["depends"] = [{"name": "mid", "use": ["result", "deps"], "environment": {"VA": "b"}}]
+    root = leaf(); root["depends"] = [{"name": "p1", "use": ["result", "deps"]}, {"name": "p2", "use": ["result", "deps"]}]
+    model2 = {"recipes": {"root": root, "p1": p1, "p2": p2, "mid": mid, "lib": lib}, "classes": {}, "default_env": {}, "sources": {},
+              "order": ["root", "p1", "p2", "mid", "lib"], "features": ["directed-same-variant-different-subtree"]}
+    for mode in ("dev", "build"):
+        cm = "develop" if mode == "dev" else "release"
+        ops = [[mode, 1, 1], ["clean", cm, True, False], ["clean", cm, False, False], [mode, 2, 2],
+               ["edit", {"kind": "dep_env", "recipe": "p2", "index": 0, "var": "VA", "value": "c"}], [mode, 1, 3],
+               ["clean", cm, False, False], [mode, 1, 4]]
+        out.append({"model": model2, "ops": ops, "directed": "same package above two variants of a passed-on dependency"})
     return out
 
 def _ws_of_script(script):
